@@ -528,7 +528,7 @@ def main(checks):
     if pid not in checks:
         print("unknown property", pid)
         return 2
-    replay = a.replay
+    replay = os.path.abspath(a.replay) if a.replay else None
     if replay:
         # accept either a raw JSON-lines input file or a replay file written by us
         try:
